@@ -428,7 +428,7 @@ def run(rep, tier, seed, only=None):
         "cells whose dispatch raises are C16's matter and are skipped here (counted)",
     )
     rep.stub("CouplingConstants -> WStub", "eko nf_default -> enumerated nf", "LeProHQ/adani/splines never evaluated (only kernels are collected)")
-    for nm, f in (("lattices", lambda r: sec_lattices(r, tier)), ("poscharge", sec_poscharge_contract), ("kernel", sec_kernel), ("readset", sec_readset), ("weightsframe", H.weights_frame), ("xslift", lambda r: __import__("contracts.c11", fromlist=["x"]).sec_get_result(r)), ("schemedispatch", lambda r: H.scheme_families(r, tier)), ("finitekernels", lambda r: sec_finite_kernels(r, tier)), ("computelocal", lambda r: __import__("contracts.c01", fromlist=["x"]).sec_compute_local(r)), ("realruns", lambda r: sec_real_runs(r, tier))):
+    for nm, f in (("lattices", lambda r: sec_lattices(r, tier)), ("poscharge", sec_poscharge_contract), ("kernel", sec_kernel), ("readset", sec_readset), ("weightsframe", H.weights_frame), ("names", H.observable_names_contract), ("xslift", lambda r: __import__("contracts.c11", fromlist=["x"]).sec_get_result(r)), ("schemedispatch", lambda r: H.scheme_families(r, tier)), ("finitekernels", lambda r: sec_finite_kernels(r, tier)), ("computelocal", lambda r: __import__("contracts.c01", fromlist=["x"]).sec_compute_local(r)), ("realruns", lambda r: sec_real_runs(r, tier))):
         if only and only not in nm:
             continue
         rep.add(guarded(f"C07/{nm}", lambda f=f: (f(rep), [])[1]))
